@@ -65,3 +65,22 @@ package signature
 //@   ensures-local err == nil && defined(opts) && !opts.chainSeparation ==> len(result0) == len(old(context))
 //@   ensures-local err == nil ==> defined(opts) || allowUnregisteredContexts
 //@   note for a context registered with chain separation the prepared context is the raw context followed by the separator and the (non-empty) chain context - stated here by length, which is what distinguishes it from the raw context; an unregistered context is refused unless the process explicitly allows it
+
+//@ ghost func ChainSep(c Context) bool { return ufb("ctxChainSep", c) }
+//@ ghost func IsChainSepOpt(o ContextOption) bool { return ufb("optChainSep", o) }
+
+//@ func WithChainSeparation
+//@   trusted
+//@   modifies nothing
+//@   ensures IsChainSepOpt(result)
+//@   note the option closure sets contextOptions.chainSeparation (function values are opaque to the engine: stated, not verified)
+
+//@ func WithDynamicSuffix
+//@   trusted
+//@   modifies nothing
+//@   ensures !IsChainSepOpt(result)
+
+//@ func NewContext
+//@   trusted
+//@   ensures ChainSep(result) == (exists j int :: 0 <= j && j < len(opts) && IsChainSepOpt(opts[j]))
+//@   note registers the context with the options applied in order; ChainSep(c) is "the registry entry of c has chainSeparation set" (the link to PrepareSignerContext's opts.chainSeparation is the sync.Map registry, which is not modelled)
